@@ -36,6 +36,10 @@ pub enum Op {
     Beta { i: u8, d: u32 },
     IsUnused { d: u32 },
     RemoveDartTx { d: u32 },
+    /// read-only auditor: reads every image and flag (and, with `data`, every coordinate and
+    /// attribute of the given kinds) in one transaction; returns a digest of what it saw and
+    /// whether it was a well-formed map
+    Audit { kinds: u16, data: bool },
     // ---- kernels (2D only)
     /// t: relative position as f64 bits, None = midpoint
     InsertVertex { e: u32, nd: (u32, u32), t: Option<u64> },
@@ -105,6 +109,13 @@ pub fn exec_tx(m: &AnyMap, t: &mut Transaction, op: &Op) -> TransactionClosureRe
             AnyMap::M3(_) => panic!("IsUnused is a 2D operation"),
         },
         Op::RemoveDartTx { d } => Res::B(lift(m.remove_dart_tx(t, *d))?),
+        Op::Audit { kinds, data } => {
+            let snap = lift(m.snapshot_tx(t, *kinds, *data))?;
+            // the digest makes the observed snapshot part of the transaction's return value, so
+            // the serial-order oracle decides whether it was a state some serial order passes
+            // through; the flag reports torn (ill-formed) views directly
+            Res::Us(vec![(snap.hash64() >> 32) as u32, snap.hash64() as u32, u32::from(snap.wf().is_ok())])
+        }
         _ => {
             let AnyMap::M2(mm) = m else { panic!("kernels are 2D operations") };
             match op {
